@@ -19,23 +19,26 @@ func defC06(mode int) *ph.Def {
 			{Name: "opt", Kind: ph.StrOpt, Aliases: []string{"o"}, DefS: "OD"},
 			{Name: "nb", Kind: ph.Bool, DefB: true, Var: true, Aliases: []string{"n"}},
 		},
-		Cmds: []*ph.CmdDef{{Name: "c"}},
+		Cmds: []*ph.CmdDef{{Name: "c"}, {Name: "w", Unset: true}},
 	}}
 }
 
 // alias groups for the metamorphic relation
 var c06Groups = [][]string{{"bool", "b"}, {"str", "s", "string"}, {"inc", "i2"}, {"list", "l"}, {"opt", "o"}, {"nb", "n"}}
 
-var c06Alpha = []string{"--bool", "--b", "--str", "--s", "--string", "--int", "--inc", "--i2", "--list", "--l", "--opt", "--o", "--sc", "--nb", "--n", "v", "5", "p", "--zz", "c", "--str=w"}
+var c06Alpha = []string{"--bool", "--b", "--str", "--s", "--string", "--int", "--inc", "--i2", "--list", "--l", "--opt", "--o", "--sc", "--nb", "--n", "v", "5", "p", "--zz", "c", "w", "--str=w"}
 
 var c06Facets = ph.Facets{Err: true, ErrDetail: true, Remaining: true, Vals: true, Called: true, CalledAs: true}
 
-func c06Subst(pc *parserCase, o *ph.Outcome) ([]string, int) {
+func c06Subst(pc *parserCase, o *ph.Outcome, ex *ph.Expect) ([]string, int) {
 	var out []string
 	n := 0
+	if ex.Err || len(ex.Unspec) > 0 {
+		return nil, 0
+	}
 	for i, t := range pc.Argv {
-		if !strings.HasPrefix(t, "--") {
-			continue
+		if !strings.HasPrefix(t, "--") || !ex.Consumed[i] {
+			continue // only occurrences that name the option at the level where they stand
 		}
 		key := t[2:]
 		for _, g := range c06Groups {
@@ -82,7 +85,7 @@ func c06Subst(pc *parserCase, o *ph.Outcome) ([]string, int) {
 func judgeC06(pc *parserCase, verbose bool) []string {
 	msgs, info := judgeSpec(pc, c06Facets, verbose)
 	if info.o.Panic == "" && !info.o.Hang {
-		m2, _ := c06Subst(pc, info.o)
+		m2, _ := c06Subst(pc, info.o, info.ex)
 		msgs = append(msgs, m2...)
 	}
 	return msgs
@@ -93,7 +96,7 @@ func init() {
 	register(&Check{
 		ID:        "C06",
 		QuickSecs: 120, ThoroSecs: 1200,
-		Rule: "input-space exploration: every argv of length <= L over 21 tokens (every name and alias of 8 options of 6 kinds, half declared through *Var, one bound to an environment variable, one marked SetCalled; values, positional, unknown option, command) x 3 modes x environment {unset, valid}; " +
+		Rule: "input-space exploration: every argv of length <= L over 22 tokens (every name and alias of 8 options of 6 kinds, half declared through *Var, one bound to an environment variable, one marked SetCalled; values, positional, unknown option, command, UnsetOptions wrapper command) x 3 modes x environment {unset, valid}; " +
 			"absolute: values (pointer, *Var target and Value() agree), Called, CalledAs compared with the reference model, untouched options keep defaults; metamorphic: replacing any occurrence of a name by any other alias of the same option changes nothing but CalledAs; " +
 			"distinct_nontrivial = distinct in-domain cases",
 		Assume: []string{"argv longer than L and other option sets are not covered"},
@@ -131,7 +134,7 @@ func init() {
 					res.count("in_domain_cases", 1)
 				}
 				if info.o.Panic == "" && !info.o.Hang {
-					m2, n := c06Subst(pc, info.o)
+					m2, n := c06Subst(pc, info.o, info.ex)
 					msgs = append(msgs, m2...)
 					res.count("alias_substitutions_compared", int64(n))
 					res.Traces += int64(n)
